@@ -1509,6 +1509,7 @@ impl HasChildren for XmlDocument {
         fn add_or_insert(doc: &XmlDocument, value: Rc<XmlItem>, id: Option<usize>) {
             value.remove_from_parent();
             value.set_parent_id(Some(doc.id()));
+            value.context().add_item(&value);
             if let Some(id) = id {
                 let index = doc.child_index(id).unwrap();
                 doc.children.borrow_mut().insert(index, value);
@@ -2113,6 +2114,9 @@ impl HasChildren for XmlElement {
                 } else {
                     self.children.borrow_mut().push(value.clone());
                 }
+                // the id table must resolve to the item that the tree now owns (the one registered at
+                // creation is gone once its creator has dropped it)
+                value.context().add_item(&value);
                 Ok(value)
             }
             _ => Err(error::Error::InvalidType),
